@@ -10,7 +10,7 @@ wt="/tmp/$name"
 git -C /repo worktree add -q --detach "$wt" HEAD || exit 3
 trap 'git -C /repo worktree remove --force "$wt" >/dev/null 2>&1; rm -rf "$wt"' EXIT
 dest=$(python3 -c "import json;print(json.load(open('$seed/meta.json'))['demo_dest'])")
-cmd=$(python3 -c "import json;print(json.load(open('$seed/meta.json'))['demo_cmd'])" | sed -E "s#/tmp/wt2?-C[0-9]+#$wt#g")
+cmd=$(python3 -c "import json;print(json.load(open('$seed/meta.json'))['demo_cmd'])" | sed -E "s#/tmp/wt[0-9]*-[A-Z][0-9A-Za-z]*#$wt#g")
 demo=$(ls "$seed" | grep -E 'demo.*\.go$|^demo$' | head -1)
 mkdir -p "$wt/$(dirname "$dest")"
 if [ -d "$seed/$demo" ]; then cp -r "$seed/$demo" "$wt/$dest"; else cp "$seed/$demo" "$wt/$dest"; fi
